@@ -23,10 +23,13 @@ func init() {
 			"(1) value round trip: seeded well-formed values of TokenChallenge, Token x4, TokenRequest types 1,2,3,5, InnerTokenRequest, EncapKey, generic batch request and response lists: Marshal == reference encoding and Unmarshal(Marshal(v)) == v field by field; " +
 			"(2) accepted bytes: honest encodings with trailing bytes, over-long varints, content mutations and the Rust interop vectors: whenever a decoder accepts b, the reference encoding c of the decoded value has len(c) <= len(b), decodes to the same value and equals obj.Marshal(), also on an object that previously held and had marshalled another value; " +
 			"(3) type separation: every 16-bit tag x body of each type x each of the four request decoders (exhaustive), and generic batches with a foreign-typed element at each position. " +
-			"distinct_nontrivial = distinct (message type, monitor, field-length vector or mutation class) keys",
-		Floors:      []string{"value_roundtrip_ok", "accepted_bytes_checked", "accepted_noncanonical", "reuse_checked", "tag_rejected", "tag_accepted_own", "batch_foreign_type_rejected", "rust_vector_decoded"},
-		Assumptions: []string{"well-formed value domain as stated in DESIGN.md C04 (origin names without ',', [\"\"] for the empty origin list, field widths of the structs)"},
-		Run:         runC04,
+			"A coverage-guided stage (Go native fuzzing, FuzzC04) offers arbitrary byte strings to every decoder and applies the accepted-bytes oracle whenever one accepts (40 000 / 4 000 000 executions). distinct_nontrivial = distinct (message type, monitor, field-length vector or mutation class) keys",
+		Floors:            []string{"value_roundtrip_ok", "accepted_bytes_checked", "accepted_noncanonical", "reuse_checked", "tag_rejected", "tag_accepted_own", "batch_foreign_type_rejected", "rust_vector_decoded"},
+		Assumptions:       []string{"well-formed value domain as stated in DESIGN.md C04 (origin names without ',', [\"\"] for the empty origin list, field widths of the structs)"},
+		FuzzTarget:        "FuzzC04",
+		FuzzExecsQuick:    40000,
+		FuzzExecsThorough: 4000000,
+		Run:               runC04,
 	})
 }
 
@@ -762,6 +765,72 @@ func (m c04) batchAccepted(b []byte, class string, must bool) {
 	c.Distinctf("batch:accepted:%s", classKey(class))
 }
 
+func (m c04) respAccepted(es []refEntry, b []byte, class string, must bool) {
+	c := m.c
+	var got [][]byte
+	var err error
+	pan, pv, _ := core.Guard(func() { got, err = batched.UnmarshalBatchedTokenResponses(clone(b)) })
+	d := map[string]any{"input": core.Hex(b), "class": class}
+	if pan {
+		m.bad("batched.TokenResponses:panic", "response list decoder panicked: "+pv, d)
+		return
+	}
+	if err != nil {
+		if must {
+			m.bad("batched.TokenResponses:roundtrip-rejected", "response list decoder rejects a well-formed list: "+err.Error(), d)
+		}
+		return
+	}
+	// rebuild the value from what was returned
+	var back []refEntry
+	for _, g := range got {
+		switch len(g) {
+		case 0:
+			back = append(back, refEntry{})
+		case 145:
+			back = append(back, refEntry{true, 1, g})
+		case 256:
+			back = append(back, refEntry{true, 2, g})
+		default:
+			m.bad("batched.TokenResponses:entry-length", fmt.Sprintf("decoded entry of %d bytes (neither absent, type 1 nor type 2)", len(g)), d)
+			return
+		}
+	}
+	cenc := encRespList(back)
+	if must {
+		if len(back) != len(es) {
+			m.bad("batched.TokenResponses:roundtrip-count", fmt.Sprintf("%d entries decoded from a list of %d", len(back), len(es)), d)
+			return
+		}
+		for k := range es {
+			if es[k].present != back[k].present || !bytes.Equal(es[k].data, back[k].data) {
+				m.bad("batched.TokenResponses:roundtrip-differs", "decoded response list differs from the encoded one", d)
+				return
+			}
+		}
+		c.Class("value_roundtrip_ok")
+	}
+	if len(cenc) > len(b) {
+		m.bad("batched.TokenResponses:accepted:canonical-longer", "canonical encoding longer than accepted bytes", d)
+		return
+	}
+	g2, err := batched.UnmarshalBatchedTokenResponses(cenc)
+	if err != nil || len(g2) != len(got) {
+		m.bad("batched.TokenResponses:accepted:canonical-decodes-differently", "canonical encoding of an accepted response list decodes differently", d)
+		return
+	}
+	for k := range got {
+		if !bytes.Equal(got[k], g2[k]) {
+			m.bad("batched.TokenResponses:accepted:canonical-decodes-differently", "canonical encoding of an accepted response list decodes differently", d)
+			return
+		}
+	}
+	c.Class("accepted_bytes_checked")
+	if !bytes.Equal(cenc, b) {
+		c.Class("accepted_noncanonical")
+	}
+}
+
 func (m c04) respListCase(r *core.Rand, i int) {
 	c := m.c
 	n := []int{0, 1, 2, 40}[i%4]
@@ -781,70 +850,7 @@ func (m c04) respListCase(r *core.Rand, i int) {
 	}
 	enc := encRespList(es)
 	c.Eval(1)
-	check := func(b []byte, class string, must bool) {
-		var got [][]byte
-		var err error
-		pan, pv, _ := core.Guard(func() { got, err = batched.UnmarshalBatchedTokenResponses(clone(b)) })
-		d := map[string]any{"input": core.Hex(b), "class": class}
-		if pan {
-			m.bad("batched.TokenResponses:panic", "response list decoder panicked: "+pv, d)
-			return
-		}
-		if err != nil {
-			if must {
-				m.bad("batched.TokenResponses:roundtrip-rejected", "response list decoder rejects a well-formed list: "+err.Error(), d)
-			}
-			return
-		}
-		// rebuild the value from what was returned
-		var back []refEntry
-		for _, g := range got {
-			switch len(g) {
-			case 0:
-				back = append(back, refEntry{})
-			case 145:
-				back = append(back, refEntry{true, 1, g})
-			case 256:
-				back = append(back, refEntry{true, 2, g})
-			default:
-				m.bad("batched.TokenResponses:entry-length", fmt.Sprintf("decoded entry of %d bytes (neither absent, type 1 nor type 2)", len(g)), d)
-				return
-			}
-		}
-		cenc := encRespList(back)
-		if must {
-			if len(back) != len(es) {
-				m.bad("batched.TokenResponses:roundtrip-count", fmt.Sprintf("%d entries decoded from a list of %d", len(back), len(es)), d)
-				return
-			}
-			for k := range es {
-				if es[k].present != back[k].present || !bytes.Equal(es[k].data, back[k].data) {
-					m.bad("batched.TokenResponses:roundtrip-differs", "decoded response list differs from the encoded one", d)
-					return
-				}
-			}
-			c.Class("value_roundtrip_ok")
-		}
-		if len(cenc) > len(b) {
-			m.bad("batched.TokenResponses:accepted:canonical-longer", "canonical encoding longer than accepted bytes", d)
-			return
-		}
-		g2, err := batched.UnmarshalBatchedTokenResponses(cenc)
-		if err != nil || len(g2) != len(got) {
-			m.bad("batched.TokenResponses:accepted:canonical-decodes-differently", "canonical encoding of an accepted response list decodes differently", d)
-			return
-		}
-		for k := range got {
-			if !bytes.Equal(got[k], g2[k]) {
-				m.bad("batched.TokenResponses:accepted:canonical-decodes-differently", "canonical encoding of an accepted response list decodes differently", d)
-				return
-			}
-		}
-		c.Class("accepted_bytes_checked")
-		if !bytes.Equal(cenc, b) {
-			c.Class("accepted_noncanonical")
-		}
-	}
+	check := func(b []byte, class string, must bool) { m.respAccepted(es, b, class, must) }
 	check(enc, "canonical", true)
 	l, k := refVarintDec(enc)
 	for _, form := range []int{2, 4, 8} {
